@@ -105,6 +105,11 @@ class Analysis:
 
     def need(self, e: ast.expr, st: bool, site: ast.AST, why: str) -> None:
         self.obligations += 1
+        if st is not N and any(isinstance(x, ast.Attribute) and isinstance(x.value, ast.Name) and x.value.id in ("self", "cls") for x in ast.walk(e)):
+            # the text being cut apart lives in an attribute: whether it was stripped is decided by other methods, in an order
+            # this per-function typestate does not see
+            from .srcmodel import AnalysisError
+            raise AnalysisError(f"{self.qual}:{getattr(site, 'lineno', 0)}: `{norm(e)}` is inspected by position but is kept in object state; the space-normalisation typestate follows locals only")
         if st is not N:
             k = (getattr(site, "lineno", 0), norm(e), why)
             if k not in self._reported:
